@@ -5,6 +5,7 @@ import (
 	"math/rand"
 	"os"
 	"sort"
+	"sync"
 	"testing"
 	"time"
 
@@ -43,6 +44,7 @@ type coreScn struct {
 	l        mangos.Listener
 	pipes    []*vt.Pipe
 	mp       map[string]mangos.Pipe
+	mpMu     sync.Mutex
 	script   map[string]string
 	answered int
 	npipe    int
@@ -60,8 +62,10 @@ func (c *coreScn) newPipe() *vt.Pipe {
 	if len(c.cfg.Scripts) >= c.npipe {
 		sc = c.cfg.Scripts[c.npipe-1]
 	}
+	c.mpMu.Lock()
 	c.script[p.Name] = sc
 	c.pipes = append(c.pipes, p)
+	c.mpMu.Unlock()
 	c.s.Rec.Emit("mkpipe", "p", p.Name, "script", sc)
 	return p
 }
@@ -135,7 +139,10 @@ func (c *coreScn) step(st string) {
 			}
 		}
 	case "appclose":
-		if mp := c.mp[arg]; mp != nil {
+		c.mpMu.Lock()
+		mp := c.mp[arg]
+		c.mpMu.Unlock()
+		if mp != nil {
 			s.Call(c.thread(), "pclose", arg, nil, func() []interface{} { return []interface{}{"r", mp.Close()} })
 		}
 	case "adv":
@@ -168,13 +175,17 @@ func runCore(t *testing.T, cfg coreCfg) sim.Result {
 			c.base[id] = true
 		}
 		rp := &hx.RecProto{Protocol: &hx.Stub{}, Rec: s.Rec}
-		rp.Refuse = func(name string) bool { return c.script[name] == "refuse" }
+		scriptOf := func(name string) string { c.mpMu.Lock(); defer c.mpMu.Unlock(); return c.script[name] }
+		rp.Refuse = func(name string) bool { return scriptOf(name) == "refuse" }
 		rp.InAdd = func(name string) {
-			if c.script[name] == "dropInAdd" {
+			if scriptOf(name) == "dropInAdd" {
+				c.mpMu.Lock()
+				pipes := append([]*vt.Pipe(nil), c.pipes...)
+				c.mpMu.Unlock()
 				// The peer goes away while proto.AddPipe is still running:
 				// the protocol's receiver sees the failure before addPipe
 				// has marked the pipe as added.
-				for _, p := range c.pipes {
+				for _, p := range pipes {
 					if p.Name == name {
 						s.Rec.Emit("drop", "p", name)
 						p.Drop()
@@ -185,9 +196,11 @@ func runCore(t *testing.T, cfg coreCfg) sim.Result {
 		}
 		c.sock = protocol.MakeSocket(rp)
 		hx.Hook(c.sock, s.Rec, func(ev, name string, p mangos.Pipe) {
+			c.mpMu.Lock()
 			c.mp[name] = p
-			if (ev == "attaching" && c.script[name] == "closeAttaching") ||
-				(ev == "attached" && c.script[name] == "closeAttached") {
+			c.mpMu.Unlock()
+			if (ev == "attaching" && scriptOf(name) == "closeAttaching") ||
+				(ev == "attached" && scriptOf(name) == "closeAttached") {
 				_ = p.Close()
 			}
 		})
@@ -371,6 +384,7 @@ func TestCore(t *testing.T) {
 		if out.Stop() {
 			break
 		}
+		cfg.Steps = closeMix(cfg.Steps, rng, []string{"dial", "listen", "offer", "ansok", "adv 1s", "dclose", "lclose", "sclose"})
 		res := runCore(t, cfg)
 		out.Add(fmt.Sprintf("core-%d", i), coreCfgEv(cfg), fmt.Sprint(cfg), res)
 	}
